@@ -431,27 +431,20 @@ wait:
 	smu.Lock()
 	defer smu.Unlock()
 	next := make([]int, len(c.Plans))
-	seen := map[vnet.Chunk]bool{}
 	seenTag := map[string]bool{}
 	for _, g := range got {
-		rec := sent[g.ptr]
-		if nat {
-			rec = byTag[g.tag]
-			if rec != nil && seenTag[g.tag] {
-				return "delay:" + c.Kind + ":duplicate", fmt.Sprintf("datagram sender=%d seq=%d forwarded twice", rec.sender, rec.seq)
-			}
-			seenTag[g.tag] = true
+		// a datagram is identified by its chunk tag (a faithful copy keeps it), not by the identity of the chunk object
+		rec := byTag[g.tag]
+		if rec != nil && seenTag[g.tag] {
+			return "delay:" + c.Kind + ":duplicate", fmt.Sprintf("datagram sender=%d seq=%d forwarded twice", rec.sender, rec.seq)
 		}
+		seenTag[g.tag] = true
 		if rec != nil && natDropped(rec.sender) {
 			return "delay:" + c.Kind + ":nat-drop-forwarded", fmt.Sprintf("datagram sender=%d seq=%d has no 1:1 pair for its source and was forwarded all the same", rec.sender, rec.seq)
 		}
 		if rec == nil {
 			return "delay:" + c.Kind + ":invented", fmt.Sprintf("sink received chunk tag=%s that was never handed in", g.tag)
 		}
-		if !nat && seen[g.ptr] {
-			return "delay:" + c.Kind + ":duplicate", fmt.Sprintf("datagram sender=%d seq=%d forwarded twice", rec.sender, rec.seq)
-		}
-		seen[g.ptr] = true
 		if g.hash != rec.hash || (!nat && g.src != rec.src) || g.dst != rec.dst {
 			return "delay:" + c.Kind + ":modified", fmt.Sprintf("datagram sender=%d seq=%d was modified", rec.sender, rec.seq)
 		}
